@@ -111,6 +111,8 @@ class Fn:
                 return "bool"
             if e[2] in ("copied", "cloned", "clone", "collect", "to_string_lossy", "chain", "iter", "ok", "to_string", "to_owned"):
                 return self.ty(e[1], env)
+            if e[2] in ("or_else", "filter") and re.match(r"Option<(.*)>$", self.ty(e[1], env) or ""):
+                return self.ty(e[1], env)
             if self.spec.get("iterators"):
                 rt0 = self.ty(e[1], env)
                 if e[2] in ("chunks", "par_chunks"):
@@ -560,6 +562,13 @@ class Fn:
             if name == "unwrap_or_else" and len(args) == 1 and args[0][0] == "closure" and (not args[0][1] or list(args[0][1]) == [("pwild",)]) and re.match(r"Option<(.*)>$", self.ty(recv, env) or ""):
                 v = self.fresh("v")
                 return "(match %s with Some %s => %s | None => %s end)" % (self.ex(recv, env), v, v, self.ex(args[0][2], env))
+            if name == "or_else" and len(args) == 1 and args[0][0] == "closure" and not args[0][1] and re.match(r"Option<(.*)>$", self.ty(recv, env) or ""):
+                v = self.fresh("v")
+                return "(match %s with Some %s => Some %s | None => %s end)" % (self.ex(recv, env), v, v, self.ex(args[0][2], env))
+            if name == "filter" and len(args) == 1 and args[0][0] == "closure" and len(args[0][1]) == 1 and re.match(r"Option<(.*)>$", self.ty(recv, env) or ""):
+                m = re.match(r"Option<(.*)>$", self.ty(recv, env))
+                ps, add = self.pat(args[0][1][0], env, m.group(1))
+                return "(match %s with Some %s => if %s then Some %s else None | None => None end)" % (self.ex(recv, env), paren(ps), self.ex(args[0][2], dict(env, **add)), paren(ps))
             if name == "map" and len(args) == 1 and args[0][0] == "closure" and re.match(r"Option<(.*)>$", self.ty(recv, env) or ""):
                 clo = args[0]
                 if len(clo[1]) != 1:
@@ -2192,6 +2201,22 @@ def functions():
         return "Definition g_root_pair_hash (a b : list Z) : list Z :=\n  %s." % text
     out.append(("root_pair_hash", "src/bin/copia/archive.rs root_pair_hash", None, t_root_pair_hash))
 
+    def t_host_id():
+        src = read("src/bin/copia/bidir.rs")
+        params, ret, body = R.find_fn(src, "host_id", None)
+        if params:
+            raise Unsupported("signature of host_id is %s" % params)
+        spec = dict(str_literals=True,
+                    calls={"std::env::var": ("hostname_var (* {0} *)", "Option<String>"), ".ok": ("{0}", "Option<String>"), ".to_string": ("{0}", "String"),
+                           "std::process::Command::new": ("tt (* {0} *)", "Command"), ".output": ("hostname_cmd (* {0} *)", "Option<Output>"),
+                           "String::from_utf8_lossy": ("{0}", "String"), ".trim": ("trim_ws {0}", "String"), ".is_empty": ("is_nil {0}", "bool")},
+                    fields={("Output", "stdout"): ("{0}", "Vec<u8>")},
+                    typed_methods={("Option<Output>", "ok"): "{0}"})
+        fn = Fn(spec)
+        text = fn.block(body, {}, Ctx(val=(lambda x: x), ret=(lambda x: x), fall=None))
+        return "Definition g_host_id (hostname_var hostname_cmd : option (list Z)) : list Z :=\n  %s." % text
+    out.append(("host_id", "src/bin/copia/bidir.rs host_id", None, t_host_id))
+
     def t_archive_path():
         src = read("src/bin/copia/archive.rs")
         params, ret, body = R.find_fn(src, "archive_path", None)
@@ -3198,7 +3223,7 @@ GROUPS = {
     "PushDelete": ("Model.Glob Model.Plan Model.Listing Model.ShellQuote", "plainz", ["push_delete_request"]),
     "PushCommand": ("Model.Glob Model.Plan Model.Listing Model.ShellQuote", "pushcommand", ["push_command", "pull_command", "list_command", "mkdir_list"]),
     "RemoteRun": ("Model.Glob Model.Plan Model.OneWay", "remoterun", ["run_remote"]),
-    "PairKey": ("", "pairkey", ["root_pair_hash", "archive_path"]),
+    "PairKey": ("", "pairkey", ["root_pair_hash", "archive_path", "host_id"]),
     "Archive": ("Model.Archive", "archive", ["archive_load"]),
     "Plan": ("Model.Glob Model.Plan", False, ["needs_transfer", "glob_match", "is_excluded", "build_plan"]),
     "Protocol": ("Model.Checksum Model.Delta Model.Protocol", False, ["from_u8", "hvalidate"]),
@@ -3413,7 +3438,12 @@ def main():
                      "Variable canon : list Z -> list Z.        (* std::fs::canonicalize(p), or p itself when that fails *)\n"
                      "(* PathBuf::join on Unix: an absolute argument replaces the base; otherwise a `/` goes between unless the base is empty or already ends in one *)\n"
                      "Definition pjoin (base x : list Z) : list Z :=\n"
-                     "  match x with 47 :: _ => x | _ => match rev base with [] => x | 47 :: _ => base ++ x | _ => base ++ [47] ++ x end end.\n\n" + "\n".join(texts) + "End WithHash.\n")
+                     "  match x with 47 :: _ => x | _ => match rev base with [] => x | 47 :: _ => base ++ x | _ => base ++ [47] ++ x end end.\n"
+                     "(* str::trim on ASCII output: white space (blank, \\t \\n \\v \\f \\r) dropped at both ends; `String::from_utf8_lossy` is read as the identity (what `hostname` prints) *)\n"
+                     "Definition is_ws (c : Z) : bool := (c =? 32) || ((9 <=? c) && (c <=? 13)).\n"
+                     "Fixpoint trim_start (l : list Z) : list Z := match l with c :: r => if is_ws c then trim_start r else l | [] => [] end.\n"
+                     "Definition trim_ws (l : list Z) : list Z := rev (trim_start (rev (trim_start l))).\n"
+                     "Definition is_nil (l : list Z) : bool := match l with [] => true | _ => false end.\n\n" + "\n".join(texts) + "End WithHash.\n")
         elif digest == "hubconnect":
             body += ("\n(* the reply to the client's Hello, and what connect does in order *)\nInductive hreply := RHelloV (version : Z) | ROther.\n"
                      "Inductive hreq := SHello (version : Z).\n"
